@@ -364,9 +364,17 @@ class TraceSet(object):
                 self.xjumpval = np.float64(kwargs['xjumpval'])
             else:
                 self.xjumpval = None
-            self.coeff = np.zeros((self.nTrace, self.ncoeff), dtype=xpos.dtype)
+            #
+            # Integer positions (e.g. pixel indexes) still give floating
+            # point coefficients.
+            #
+            if np.issubdtype(xpos.dtype, np.inexact):
+                dt = xpos.dtype
+            else:
+                dt = np.float64
+            self.coeff = np.zeros((self.nTrace, self.ncoeff), dtype=dt)
             self.outmask = np.zeros(xpos.shape, dtype=bool)
-            self.yfit = np.zeros(xpos.shape, dtype=xpos.dtype)
+            self.yfit = np.zeros(xpos.shape, dtype=dt)
             for iTrace in range(self.nTrace):
                 xvec = self.xnorm(xpos[iTrace, :], do_jump)
                 iIter = 0
@@ -405,7 +413,10 @@ class TraceSet(object):
         do_jump = self.has_jump and (not ignore_jump)
         if xpos is None:
             xpos = djs_laxisgen([self.nTrace, self.nx], iaxis=1) + self.xmin
-        ypos = np.zeros(xpos.shape, dtype=xpos.dtype)
+        if np.issubdtype(xpos.dtype, np.inexact):
+            ypos = np.zeros(xpos.shape, dtype=xpos.dtype)
+        else:
+            ypos = np.zeros(xpos.shape, dtype=np.float64)
         for iTrace in range(self.nTrace):
             xvec = self.xnorm(xpos[iTrace, :], do_jump)
             legarr = self._func_map[self.func](xvec, self.ncoeff)
